@@ -53,9 +53,15 @@ ViaClasses == {"none", "others", "othersTwoLines", "sameNameOtherInst", "ownOnly
                "ownNominated",
                \* the same with the option spelt in lower case / upper case inside a list (connection options are
                \* case-insensitive); othersNominated: only other hops' elements, nominated - they stay in the chain
-               "ownNominatedLower", "ownNominatedList", "othersNominated"}
+               "ownNominatedLower", "ownNominatedList", "othersNominated",
+               \* only other hops' elements in which this instance's identifier merely occurs: inside another hop's
+               \* comment, as the beginning and as the end of another hop's longer name - no repetition, forwarded
+               "ownInOthersComment", "ownPrefixOfOther", "ownSuffixOfOther",
+               \* the own element after an earlier hop's comment that is never closed, and with a nested comment that
+               \* holds a comma, and after a tab: repetitions
+               "ownAfterUnclosedComment", "ownNestedComment", "ownAfterTab"}
 ViaLoop(v) == v \in {"ownOnly", "ownThenOther", "otherThenOwn", "ownSecondLine", "ownWithComment", "ownNominated",
-                     "ownNominatedLower", "ownNominatedList"}
+                     "ownNominatedLower", "ownNominatedList", "ownAfterUnclosedComment", "ownNestedComment", "ownAfterTab"}
 
 (* ---------- upstream selection (C05) ---------- *)
 PacResults == {"empty", "DIRECT", "PROXY_A", "HTTP_A", "HTTPS_B", "SOCKS5_C", "SOCKS_C", "SOCKS4_C",
